@@ -24,50 +24,14 @@ func init() {
 
 // perCallWeb collects the per-call counter values of fn: the values returned as result 0 and what
 // they are computed from by increments and phis (plus the count of bytes taken from the hold-back buffer).
-func perCallWeb(fn *ssa.Function) map[ssa.Value]bool {
-	web := map[ssa.Value]bool{}
-	var add func(v ssa.Value)
-	add = func(v ssa.Value) {
-		v = origin(v)
-		if v == nil || web[v] {
-			return
-		}
-		switch x := v.(type) {
-		case *ssa.Const:
-			return
-		case *ssa.Phi:
-			web[v] = true
-			for _, e := range x.Edges {
-				add(e)
-			}
-		case *ssa.BinOp:
-			if _, isC := constInt(x.Y); isC && (x.Op == token.ADD || x.Op == token.SUB) {
-				web[v] = true
-				add(x.X)
-			}
-			if x.Op == token.ADD {
-				if _, isC := constInt(x.Y); !isC {
-					// n + m of two counts
-					web[v] = true
-					add(x.X)
-					add(x.Y)
-				}
-			}
-		case *ssa.Extract:
-			if call, ok := x.Tuple.(*ssa.Call); ok && callName(&call.Call) == "bytes.Buffer.Read" && x.Index == 0 {
-				web[v] = true
-			}
-		case *ssa.Call:
-			// a bulk transfer counts as many bytes as this call happened to be given
-			if callName(&x.Call) == "builtin.copy" {
-				web[v] = true
-			}
-		}
-	}
+func perCallWeb(c *Ctx, fn *ssa.Function) map[ssa.Value]bool {
+	// ip_g7.go: the same closure, which also passes through helpers that take a counter and hand
+	// it back advanced (n = d.emit(p, n, b))
+	var starts []ssa.Value
 	for _, ret := range returnsOf(fn) {
-		add(ret.Results[0])
+		starts = append(starts, ret.Results[0])
 	}
-	return web
+	return newG7Percall(c).web(fn, nil, starts, 0)
 }
 
 func checkC06(c *Ctx, r *Report) {
@@ -91,8 +55,17 @@ func checkC06(c *Ctx, r *Report) {
 			if k, isC := constInt(v); isC && k == 0 {
 				continue // refused before consuming anything (sticky error)
 			}
-			r.Check("C06-consumed", fnName(fn), "return n", c.pos(ret.Pos()), pr.LE(fn.Params[1], true, 0, v, false, 0, ret),
-				"n >= len(p) holds at the return: every byte of the call was fed to the encoder", "Write can return before all of p was consumed without reporting an error")
+			okReason := "n >= len(p) holds at the return: every byte of the call was fed to the encoder"
+			proved := pr.LE(fn.Params[1], true, 0, v, false, 0, ret)
+			if !proved {
+				// ip_g7.go: n counted in lock-step with `for range p[n:]`
+				var how string
+				if proved, how = g7LockstepConsumed(ret, fn.Params[1]); proved {
+					okReason += " (" + how + ")"
+				}
+			}
+			r.Check("C06-consumed", fnName(fn), "return n", c.pos(ret.Pos()), proved,
+				okReason, "Write can return before all of p was consumed without reporting an error")
 		}
 	}
 	// ---- C06-holdback, C06-drain
@@ -116,36 +89,10 @@ func checkC06(c *Ctx, r *Report) {
 			"d.state.buf.Read(p) dominates every decode step", "decoding can resume before the bytes held back by the previous call were delivered: output is reordered or lost")
 		// the split of a match between p and the hold-back buffer
 		o := r.Add("C06-holdback", where, "match bytes go to p or to the hold-back buffer", c.pos(fn.Pos()))
-		good := false
-		for _, wb := range callsTo(fn, false, "bytes.Buffer.WriteByte") {
-			if !strings.HasSuffix(pathOf(wb.Common().Args[0]), ".state.buf") {
-				continue
-			}
-			// on the false edge of n < len(p)
-			for _, cd := range condsAt(wb.Block()) {
-				b, ok := cd.V.(*ssa.BinOp)
-				if !ok || b.Op != token.LSS || cd.Truth {
-					continue
-				}
-				call, isLen := b.Y.(*ssa.Call)
-				if !isLen || callName(&call.Call) != "builtin.len" || call.Call.Args[0] != ssa.Value(p) {
-					continue
-				}
-				// the other edge stores the same byte into p[n]
-				thenBlk := cd.If.Block().Succs[0]
-				for _, in := range thenBlk.Instrs {
-					if st, ok := in.(*ssa.Store); ok {
-						if ia, ok := st.Addr.(*ssa.IndexAddr); ok && ia.X == ssa.Value(p) && ia.Index == b.X {
-							if pathOf(st.Val) == pathOf(wb.Common().Args[1]) {
-								good = true
-							}
-						}
-					}
-				}
-			}
-		}
+		// in Read itself or in a helper that receives Read's buffer at every call (ip_g7.go)
+		good, inHelper := c.g7HoldbackSplit(fn)
 		if good {
-			o.OK("on n < len(p) the byte is stored in p[n], otherwise the same byte is appended to d.state.buf")
+			o.OK("on n < len(p) the byte is stored in p[n], otherwise the same byte is appended to d.state.buf%s", inHelper)
 		} else {
 			o.Bad("a decoded byte that does not fit the caller's buffer is not (or not identically) kept in the hold-back buffer: small Read buffers lose data")
 		}
@@ -155,12 +102,18 @@ func checkC06(c *Ctx, r *Report) {
 	r.Rule("C06-flush", 1, "Close drains the lookahead")
 	if fn := c.Func(pkg, "(*Writer).Close"); fn != nil {
 		where := fnName(fn)
+		// the drain step is a role (ip_g7.go, g7DrainStep): a call, under `<w>.len > 0`, of a helper
+		// that takes exactly one byte off the lookahead of that Writer under the arguments given
 		var drain ssa.CallInstruction
-		for _, ci := range callsTo(fn, false, "lzhuf.Writer.advance") {
-			if isNilConst(ci.Common().Args[1]) {
-				for _, cd := range condsAt(ci.Block()) {
-					if b, ok := cd.V.(*ssa.BinOp); ok && b.Op == token.GTR && cd.Truth && strings.HasSuffix(pathOf(b.X), ".len") {
+		notDrain := ""
+		for _, ci := range allCalls(fn) {
+			for _, cd := range condsAt(ci.Block()) {
+				// <w>.len > 0, also spelled 0 < len, len != 0, len >= 1
+				if lenV := g7PositiveLen(cd); lenV != nil {
+					if ok, why := c.g7DrainStep(ci, g7Root(lenV)); ok {
 						drain = ci
+					} else if why != "" && notDrain == "" {
+						notDrain = "; the call at " + c.pos(ci.Pos()) + " is not a drain step: " + why
 					}
 				}
 			}
@@ -168,19 +121,22 @@ func checkC06(c *Ctx, r *Report) {
 		o := r.Add("C06-flush", where, "advance(nil) while len > 0 before the end code and the header", c.pos(fn.Pos()))
 		switch {
 		case drain == nil || !reachable(drain.Block(), drain.Block(), nil):
-			o.Bad("Close does not drain the lookahead buffer in a loop: the last bytes of the input (up to 60) are not encoded")
+			o.Bad("Close does not drain the lookahead buffer in a loop: the last bytes of the input (up to 60) are not encoded%s", notDrain)
 		default:
 			after := true
 			for _, ci := range allCalls(fn) {
 				n := callName(ci.Common())
-				if n == "lzhuf.Writer.encodeEnd" || n == "io.Copy" || n == "encoding/binary.Write" {
+				if n == "lzhuf.Writer.encodeEnd" || n == "io.Copy" || n == "encoding/binary.Write" || n == "bufio.Writer.Write" || n == "bytes.Buffer.WriteTo" {
 					// must come after the loop: the loop header dominates them and they are not inside it
 					if !drainLoopHeader(drain).Dominates(ci.Block()) || reachable(ci.Block(), drain.Block(), nil) {
 						after = false
 					}
 				}
 			}
-			if after {
+			refill := c.g7LoopRefills(drain)
+			if refill != "" {
+				o.Bad("the drain loop also adds to the lookahead (%s): it does not terminate or encodes bytes that were never written", refill)
+			} else if after {
 				o.OK("the drain loop precedes encodeEnd and every header/data write")
 			} else {
 				o.Bad("something is written before the lookahead buffer has been drained")
@@ -251,77 +207,15 @@ func percallRule(c *Ctx, r *Report, rule string) {
 		}
 		where := fnName(fn)
 		p := fn.Params[1]
-		web := perCallWeb(fn)
+		web := perCallWeb(c, fn)
 		o := r.Add(rule, where, "uses of the per-call counter n", c.pos(fn.Pos()))
 		if len(web) == 0 {
 			o.Bad("no per-call counter found (the function does not return a count computed by increments): unresolved")
 			continue
 		}
-		leak := ""
-		nUses := 0
-		for v := range web {
-			if v.Referrers() == nil {
-				continue
-			}
-			for _, ref := range *v.Referrers() {
-				nUses++
-				switch x := ref.(type) {
-				case *ssa.Phi:
-					if web[x] {
-						continue
-					}
-				case *ssa.BinOp:
-					if web[x] {
-						continue
-					}
-					switch x.Op {
-					case token.LSS, token.LEQ, token.GTR, token.GEQ, token.EQL, token.NEQ:
-						other := x.X
-						if other == v {
-							other = x.Y
-						}
-						if call, ok := other.(*ssa.Call); ok && callName(&call.Call) == "builtin.len" && call.Call.Args[0] == ssa.Value(p) {
-							continue
-						}
-						if web[other] {
-							continue
-						}
-						if k, isC := constInt(other); isC && k == 0 {
-							continue
-						}
-						if _, isC := constInt(other); isC {
-							// a per-call count compared with a non-zero constant: harmless only as a
-							// branch condition that does not decide codec state - and it never is: the
-							// count of THIS call says nothing about the stream position
-							if leak == "" {
-								leak = c.pos(x.Pos()) + ": the per-call count is compared with a constant (" + x.String() + ")"
-							}
-							continue
-						}
-					}
-				case *ssa.IndexAddr:
-					if x.X == ssa.Value(p) && x.Index == v {
-						continue
-					}
-				case *ssa.Slice:
-					if x.X == ssa.Value(p) {
-						continue
-					}
-				case *ssa.Return, *ssa.DebugRef:
-					continue
-				case *ssa.Store:
-					// spilling the named result to its own slot
-					if x.Val == v {
-						if al, ok := x.Addr.(*ssa.Alloc); ok && al.Comment == "n" {
-							continue
-						}
-					}
-				}
-				if leak == "" || c.pos(ref.Pos()) < leak {
-					leak = c.pos(ref.Pos()) + ": " + ref.String()
-				}
-			}
-		}
+		// every use of every counter value, followed into same-package helpers that receive the
+		// counter (ip_g7.go): the helper is held to the same rule with p bound to its parameter
+		leak, nUses := newG7Percall(c).leak(fn, p, web, 0)
 		if leak == "" {
 			o.OK("%d use(s): only indexing of the caller's buffer, comparisons with len(p), increments and the result", nUses)
 		} else {
@@ -337,9 +231,8 @@ func percallRule(c *Ctx, r *Report, rule string) {
 func mirrorRule(c *Ctx, r *Report, rule string) {
 	r.Rule(rule, 1, "wrap-around mirror of the ring buffer covers F-1 bytes")
 	p := c.Pkg("lzhuf")
-	fn := c.Func("lzhuf", "(*Writer).advance")
-	if fn == nil || p == nil {
-		r.Fail(rule, "anchor lzhuf.(*Writer).advance not found")
+	if p == nil {
+		r.Fail(rule, "package lzhuf not found")
 		return
 	}
 	F, okF := constIntOf(p, "_F")
@@ -348,64 +241,73 @@ func mirrorRule(c *Ctx, r *Report, rule string) {
 		r.Fail(rule, "constants _F/_N not found")
 		return
 	}
+	// the mirror store is found by what it is - a store to textBuf[x + N] - in Writer.Write or
+	// whichever same-package function Write reaches by static calls (Writer.advance on the pinned tree)
 	found := false
-	eachInstr(fn, func(_ *ssa.BasicBlock, _ int, in ssa.Instruction) {
-		st, ok := in.(*ssa.Store)
-		if !ok {
-			return
-		}
-		ia, ok := st.Addr.(*ssa.IndexAddr)
-		if !ok || !strings.HasSuffix(pathOf(ia.X), ".textBuf") {
-			return
-		}
-		b, ok := ia.Index.(*ssa.BinOp)
-		if !ok || b.Op != token.ADD {
-			return
-		}
-		k, isC := constInt(b.Y)
-		base := b.X
-		if !isC {
-			k, isC = constInt(b.X)
-			base = b.Y
-		}
-		if !isC || k != N {
-			return
-		}
-		found = true
-		o := r.Add(rule, fnName(fn), "mirror store "+c.exprAt(fn, st.Pos()), c.pos(st.Pos()))
-		// the tightest dominating upper bound on the index base
-		bound, has := int64(0), false
-		for _, cd := range condsAt(st.Block()) {
-			cmp, ok := cd.V.(*ssa.BinOp)
-			if !ok || pathOf(cmp.X) != pathOf(base) {
-				continue
+	wr := c.Func("lzhuf", "(*Writer).Write")
+	if wr == nil {
+		r.Fail(rule, "anchor lzhuf.(*Writer).Write not found")
+		return
+	}
+	for _, fn := range g7Closure(wr) {
+		eachInstr(fn, func(_ *ssa.BasicBlock, _ int, in ssa.Instruction) {
+			st, ok := in.(*ssa.Store)
+			if !ok {
+				return
 			}
-			kk, isK := constInt(cmp.Y)
-			if !isK {
-				continue
+			ia, ok := st.Addr.(*ssa.IndexAddr)
+			if !ok || !strings.HasSuffix(pathOf(ia.X), ".textBuf") {
+				return
+			}
+			b, ok := ia.Index.(*ssa.BinOp)
+			if !ok || b.Op != token.ADD {
+				return
+			}
+			k, isC := constInt(b.Y)
+			base := b.X
+			if !isC {
+				k, isC = constInt(b.X)
+				base = b.Y
+			}
+			if !isC || k != N {
+				return
+			}
+			found = true
+			o := r.Add(rule, fnName(fn), "mirror store "+c.exprAt(fn, st.Pos()), c.pos(st.Pos()))
+			// the tightest dominating upper bound on the index base
+			bound, has := int64(0), false
+			for _, cd := range condsAt(st.Block()) {
+				cmp, ok := cd.V.(*ssa.BinOp)
+				if !ok || pathOf(cmp.X) != pathOf(base) {
+					continue
+				}
+				kk, isK := constInt(cmp.Y)
+				if !isK {
+					continue
+				}
+				switch {
+				case cmp.Op == token.LSS && cd.Truth:
+					bound, has = kk, true // base < kk
+				case cmp.Op == token.LEQ && cd.Truth:
+					bound, has = kk+1, true
+				case cmp.Op == token.GEQ && !cd.Truth:
+					bound, has = kk, true
+				case cmp.Op == token.GTR && !cd.Truth:
+					bound, has = kk+1, true
+				}
 			}
 			switch {
-			case cmp.Op == token.LSS && cd.Truth:
-				bound, has = kk, true // base < kk
-			case cmp.Op == token.LEQ && cd.Truth:
-				bound, has = kk+1, true
-			case cmp.Op == token.GEQ && !cd.Truth:
-				bound, has = kk, true
-			case cmp.Op == token.GTR && !cd.Truth:
-				bound, has = kk+1, true
+			case !has:
+				o.Bad("the mirror store is not guarded by an upper bound on the slot (it would run past the array)")
+			case bound != F-1:
+				o.Bad("the ring buffer's wrap-around mirror is written for slots below %d, LZHUF needs exactly F-1 = %d: a match of full length starting in the last window slots compares against a stale byte and the encoder emits a match the data does not contain (silent corruption, CRC passes)", bound, F-1)
+			default:
+				o.OK("text_buf[s+N] = c exactly for s < F-1 = %d", F-1)
 			}
-		}
-		switch {
-		case !has:
-			o.Bad("the mirror store is not guarded by an upper bound on the slot (it would run past the array)")
-		case bound != F-1:
-			o.Bad("the ring buffer's wrap-around mirror is written for slots below %d, LZHUF needs exactly F-1 = %d: a match of full length starting in the last window slots compares against a stale byte and the encoder emits a match the data does not contain (silent corruption, CRC passes)", bound, F-1)
-		default:
-			o.OK("text_buf[s+N] = c exactly for s < F-1 = %d", F-1)
-		}
-	})
+		})
+	}
 	if !found {
-		r.Add(rule, fnName(fn), "mirror store", c.pos(fn.Pos())).Bad("no store to textBuf[s+N] found in advance (unresolved)")
+		r.Add(rule, "lzhuf", "mirror store", "lzhuf").Bad("no store to textBuf[s+N] found in Writer.Write or the helpers it calls (unresolved)")
 	}
 }
 
